@@ -166,6 +166,57 @@ func init() {
 		}))
 	}
 	ops["names.namespec"] = func(f Fields) string { return f["want"] }
+	ops["names.choose"] = func(f Fields) string {
+		return nmCanon(guard(func() string {
+			tt := name.Tables{}
+			for _, e := range f.List("tt", ",") {
+				i := strings.IndexByte(e, ':')
+				n, _ := strconv.Atoi(e[i+1:])
+				t := &name.Table{}
+				for k := 0; k < n; k++ {
+					t.VerifSet(name.ID(k+(k+10)/25), "x") // ids 0,1,…, skipping the reserved id 15
+				}
+				tt[string(mustHexNm(e[:i]))] = t
+			}
+			var prefs []language.Tag
+			for _, p := range f.List("prefs", ",") {
+				prefs = append(prefs, language.MustParse(string(mustHexNm(p))))
+			}
+			t, _ := tt.Choose(prefs...)
+			if t == nil {
+				return "nil"
+			}
+			for k, v := range tt {
+				if v == t {
+					return hx([]byte(k))
+				}
+			}
+			return "foreign-table"
+		}))
+	}
+	ops["names.slspec"] = func(f Fields) string { return f["want"] }
+	ops["names.slrt"] = func(f Fields) string {
+		return nmCanon(guard(func() string {
+			data, err := nmEncodeScriptList(f.List("pairs", ","))
+			if err != "" {
+				return err
+			}
+			info, e := gtab.Read(bytes.NewReader(data), gtab.TypeGsub)
+			if e != nil {
+				return "read-err"
+			}
+			var out []string
+			for tag, ff := range info.ScriptList {
+				s, l, e := gtab.VerifBCP47ToOtf(tag)
+				if e != nil {
+					return "back-err"
+				}
+				out = append(out, nmLangSys(s, l, ff))
+			}
+			sort.Strings(out)
+			return strings.Join(out, ",")
+		}))
+	}
 	ops["names.tagext"] = func(f Fields) string {
 		return nmCanon(guard(func() string {
 			tag, err := gtab.VerifOtfToBCP47(string(f.Hex("s")), string(f.Hex("l")))
@@ -502,6 +553,204 @@ func areaNames(c *Ctx) {
 	nmPost(c)
 	nmNameTable(c)
 	nmTags(c)
+	nmChoose(c)
+}
+
+// nmChoose: Tables.Choose; the language matcher's answer (an index into the candidate list) is
+// obtained from the real x/text matcher over the predicted candidate order and passed to the model
+func nmChoose(c *Ctx) {
+	r := c.Rng
+	var tags []string
+	seen := map[string]bool{}
+	for _, m := range []map[uint16]string{name.VerifAppleBCP(), name.VerifMsBCP()} {
+		for _, t := range m {
+			if !seen[t] {
+				seen[t] = true
+				tags = append(tags, t)
+			}
+		}
+	}
+	sort.Strings(tags)
+	english := []string{"en", "en-US", "en-GB", "en-AU", "en-029"}
+	c.Case(Verdict, "names.choose", "idx=0 prefs= tt=", false)
+	for i := 0; i < c.N/5; i++ {
+		k := Pick(r, []int{1, 2, 2, 3, 4, 6, 10})
+		cnt := map[string]int{}
+		for len(cnt) < k {
+			t := Pick(r, tags)
+			if r.Chance(1, 3) {
+				t = Pick(r, english)
+			}
+			n := r.Range(0, 12)
+			if r.Chance(1, 3) {
+				n = Pick(r, []int{0, 5, 6, 10, 11}) // ties and near-ties around the +5 / +55 bonuses
+			}
+			cnt[t] = n
+		}
+		keys := make([]string, 0, k)
+		for t := range cnt {
+			keys = append(keys, t)
+		}
+		pref := func(t string) int {
+			p := 10 * cnt[t]
+			if t == "en-US" {
+				p += 55
+			} else if t == "en" || strings.HasPrefix(t, "en-") {
+				p += 5
+			}
+			return p
+		}
+		sort.Slice(keys, func(i, j int) bool {
+			if pref(keys[i]) != pref(keys[j]) {
+				return pref(keys[i]) > pref(keys[j])
+			}
+			return keys[i] < keys[j]
+		})
+		var prefs []string
+		switch r.Intn(4) {
+		case 0: // nothing: the matcher answers its default
+		case 1:
+			prefs = []string{Pick(r, keys)}
+		case 2:
+			prefs = []string{Pick(r, tags), Pick(r, keys)}
+		case 3:
+			prefs = []string{Pick(r, []string{"tlh", "en", "de-CH", "zh-TW", "pt-BR", "sr-Latn"})}
+		}
+		mt := make([]language.Tag, len(keys))
+		for j, t := range keys {
+			mt[j] = language.MustParse(t)
+		}
+		pt := make([]language.Tag, len(prefs))
+		ph := make([]string, len(prefs))
+		for j, p := range prefs {
+			pt[j] = language.MustParse(p)
+			ph[j] = hx([]byte(p))
+		}
+		_, idx, _ := language.NewMatcher(mt).Match(pt...)
+		sort.Strings(keys) // the case line does not reveal the predicted order
+		parts := make([]string, len(keys))
+		for j, t := range keys {
+			parts[j] = fmt.Sprintf("%s:%d", hx([]byte(t)), cnt[t])
+		}
+		c.Case(Verdict, "names.choose", fmt.Sprintf("idx=%d prefs=%s tt=%s", idx, strings.Join(ph, ","), strings.Join(parts, ",")), true)
+		c.Stat("choose_tables", bucket(k))
+		c.Stat("choose_prefs", fmt.Sprint(len(prefs)))
+		c.Stat("choose_matcher_index", bucket(idx))
+	}
+}
+
+func nmLangSys(s, l string, ff *gtab.Features) string {
+	opt := make([]string, len(ff.Optional))
+	for i, x := range ff.Optional {
+		opt[i] = fmt.Sprint(int(x))
+	}
+	return fmt.Sprintf("%s:%s:%d:%s", hx([]byte(s)), hx([]byte(l)), int(ff.Required), strings.Join(opt, "."))
+}
+
+// nmEncodeScriptList builds a GSUB table whose script list has one language system per entry
+// `scripthex:langhex:required:opt.opt…` (tags through the real otfToBCP47) and encodes it
+func nmEncodeScriptList(pairs []string) ([]byte, string) {
+	sl := gtab.ScriptListInfo{}
+	maxF := 0
+	for _, p := range pairs {
+		q := strings.Split(p, ":")
+		tag, err := gtab.VerifOtfToBCP47(string(mustHexNm(q[0])), string(mustHexNm(q[1])))
+		if err != nil {
+			return nil, "tag-err"
+		}
+		req, _ := strconv.Atoi(q[2])
+		ff := &gtab.Features{Required: gtab.FeatureIndex(req)}
+		if req != 0xFFFF && req >= maxF {
+			maxF = req + 1
+		}
+		if q[3] != "" {
+			for _, o := range strings.Split(q[3], ".") {
+				x, _ := strconv.Atoi(o)
+				ff.Optional = append(ff.Optional, gtab.FeatureIndex(x))
+				if x >= maxF {
+					maxF = x + 1
+				}
+			}
+		}
+		if _, dup := sl[tag]; dup {
+			return nil, "tag-collision"
+		}
+		sl[tag] = ff
+	}
+	fl := make(gtab.FeatureListInfo, maxF)
+	for i := range fl {
+		fl[i] = &gtab.Feature{Tag: "test"}
+	}
+	// a nil lookup list makes Encode write lookupListOffset 0, and Read then ignores the script list
+	info := &gtab.Info{ScriptList: sl, FeatureList: fl, LookupList: gtab.LookupList{}}
+	return info.Encode(), ""
+}
+
+func nmScriptListCase(c *Ctx, pairs [][2]string, class string) {
+	r := c.Rng
+	parts := make([]string, len(pairs))
+	for i, p := range pairs {
+		req := 0xFFFF
+		if r.Chance(1, 3) {
+			req = r.Range(0, 5)
+		}
+		var opt []string
+		for k := r.Range(0, 3); k > 0; k-- {
+			opt = append(opt, fmt.Sprint(r.Range(0, 9)))
+		}
+		opt = append(opt, fmt.Sprint(10+i%50)) // makes every entry distinguishable
+		parts[i] = fmt.Sprintf("%s:%s:%d:%s", hx([]byte(p[0])), hx([]byte(p[1])), req, strings.Join(opt, "."))
+	}
+	arg := strings.Join(parts, ",")
+	c.Case(Direct, "names.slrt", "pairs="+arg, true)
+	data, err := nmEncodeScriptList(parts)
+	if err == "" {
+		sorted := append([]string(nil), parts...)
+		sort.Strings(sorted)
+		c.Case(Direct, "names.slspec", "b="+hx(data)+" want="+strings.Join(sorted, ","), true)
+	}
+	c.Stat("scriptlist_class", class)
+	c.Stat("scriptlist_langsys", bucket(len(pairs)))
+}
+
+// nmScriptLists: language systems for pairs of the two tag tables through (*gtab.Info).Encode and
+// gtab.Read (and through an independent Lean reader of the script list)
+func nmScriptLists(c *Ctx, sk, lk []string) {
+	r := c.Rng
+	if c.Tier == "thorough" {
+		for _, s := range sk { // every pair of the two tables: one script with all language systems
+			var pairs [][2]string
+			for _, l := range lk {
+				pairs = append(pairs, [2]string{s, l})
+			}
+			nmScriptListCase(c, pairs, "one-script-all-languages")
+		}
+	}
+	// every script and every language at least once, a few language systems per script
+	li := 0
+	for _, s := range sk {
+		pairs := [][2]string{{s, ""}}
+		for k := 0; k < 4; k++ {
+			pairs = append(pairs, [2]string{s, lk[1+li%(len(lk)-1)]})
+			li++
+		}
+		nmScriptListCase(c, pairs, "each-script")
+	}
+	for i := 0; i < c.N/25; i++ { // several scripts in one list, with and without default language system
+		seen := map[[2]string]bool{}
+		var pairs [][2]string
+		for k := r.Range(1, 12); k > 0; k-- {
+			p := [2]string{Pick(r, sk[:1+r.Intn(len(sk))]), Pick(r, lk)}
+			if r.Chance(1, 2) && len(pairs) > 0 {
+				p[0] = pairs[len(pairs)-1][0]
+			}
+			if !seen[p] {
+				seen[p] = true
+				pairs = append(pairs, p)
+			}
+		}
+		nmScriptListCase(c, pairs, "mixed")
+	}
 }
 
 func nmTags(c *Ctx) {
@@ -546,6 +795,7 @@ func nmTags(c *Ctx) {
 			pair(Pick(r, sk), l)
 		}
 	}
+	nmScriptLists(c, sk, lk)
 	// tags outside the tables (verdict: both sides refuse)
 	for _, s := range []string{"dflt", "zzzz", "lao", "LATN", ""} {
 		pair(s, "DEU ")
@@ -688,24 +938,20 @@ func nmNameCase(c *Ctx, es []nmEntry, eid int, class string) {
 	numRec, storage, fits := nmFits(es, eid)
 	c.Stat("name_records", bucket(numRec))
 	c.Stat("name_storage", bucket(storage))
-	var b []byte
-	if len(tags[1]) <= 1 && len(tags[3]) <= 1 {
-		// the bytes do not depend on map iteration order: byte-exact
-		out := c.Case(Verdict, "names.enc", args, len(es) > 0)
-		if strings.HasPrefix(out, "panic") || out == "timeout" {
-			return
-		}
-		b = mustHexNm(out)
-	} else {
-		if fits {
-			// several tags per platform: the storage layout follows Go's map iteration order, so only
-			// the order-independent summary is compared (outside the capacity guard even the summary
-			// depends on the order: the wrapped offsets differ)
+	// byte-exact for every Info: after the repair Encode visits the language ids in increasing
+	// order, so the storage layout is a function of the Info (also beyond the capacity guard)
+	out := c.Case(Verdict, "names.enc", args, len(es) > 0)
+	if strings.HasPrefix(out, "panic") || out == "timeout" {
+		return
+	}
+	b := mustHexNm(out)
+	if len(tags[1]) > 1 || len(tags[3]) > 1 {
+		c.Stat("name_enc_byte_exact", "several-tags-per-platform")
+		if fits && r.Chance(1, 4) {
 			c.Case(Verdict, "names.encsum", args, true)
-		} else {
-			c.Stat("name_class", "multi-tag-beyond-capacity-not-compared")
 		}
-		b = nmBuildInfo(es).Encode(uint16(eid))
+	} else {
+		c.Stat("name_enc_byte_exact", "at-most-one-tag-per-platform")
 	}
 	if len(b) < 40000 || r.Chance(1, 4) {
 		c.Case(Verdict, "names.dec", "b="+hx(b), len(es) > 0)
@@ -853,7 +1099,7 @@ func nmNameTable(c *Ctx) {
 			{3, "en-US", 1, strings.Repeat("a", a/2)},
 			{3, "en-US", 2, strings.Repeat("b", b2/2)},
 			{3, "en-US", 300, strings.Repeat("c", w3/2-2)},
-			{3, "en-US", 301, "xy"},
+			{3, "de-DE", 1, "xy"},
 		}
 		if m > 0 {
 			es = append(es, nmEntry{1, "en", 1, strings.Repeat("m", m)})
